@@ -1,13 +1,15 @@
 #!/bin/bash
-# usage: try_seeded.sh <dir-with-patch.diff> <props...>  : applies the patch to /repo, runs the checks, reverts
+# usage: try_seeded.sh <dir-with-patch.diff> <props...>  : applies the patch to a scratch worktree of /repo's HEAD, runs the checks on it, removes it
 export GOFLAGS=-mod=mod GOPROXY=off GOSUMDB=off GOTOOLCHAIN=local
 d=$1; shift
-cd /repo
-if [ -n "$(git status --porcelain --untracked-files=no)" ]; then echo "/repo not clean"; exit 2; fi
-if ! git apply $d/patch.diff 2>/tmp/seed_err; then echo "DOES NOT APPLY: $(head -2 /tmp/seed_err)"; exit 2; fi
-if ! go build ./... 2>/tmp/seed_err; then echo "DOES NOT BUILD"; git checkout -- .; exit 2; fi
+wt=/tmp/govc_seed_wt_$$
+git -C /repo worktree add --detach -f $wt HEAD -q || exit 2
+trap 'cd /; git -C /repo worktree remove --force $wt 2>/dev/null; git -C /repo worktree prune' EXIT
+cd $wt
+if ! git apply $d/patch.diff 2>$wt.err; then echo "DOES NOT APPLY: $(head -2 $wt.err)"; rm -f $wt.err; exit 2; fi
+rm -f $wt.err
+if ! go build ./... 2>/dev/null; then echo "DOES NOT BUILD"; exit 2; fi
 for p in "$@"; do
-  out=$(/verif/bin/govc check $p 2>&1); rc=$?
+  out=$(/verif/bin/govc check $p --repo $wt --noevidence 2>&1); rc=$?
   echo "== $p rc=$rc"; echo "$out" | grep -E "^(VIOLATION|FAILED-OBLIGATION|INTERNAL)" | cut -c1-220 | head -6
 done
-git checkout -- .
